@@ -197,7 +197,16 @@ func (p *Pool) Exec(src string) *Result {
 	return e.res
 }
 
-func (p *Pool) execNoMemo(src string) *Result {
+// ExecTimed assembles src once (no memo) with its own timeout (scaling experiments).
+func (p *Pool) ExecTimed(src string, timeout time.Duration) *Result {
+	old := p.OpTimeout
+	_ = old
+	return p.execWith(src, timeout)
+}
+
+func (p *Pool) execNoMemo(src string) *Result { return p.execWith(src, p.OpTimeout) }
+
+func (p *Pool) execWith(src string, timeout time.Duration) *Result {
 	pr := <-p.slots
 	defer func() { p.slots <- pr }()
 	if pr == nil || pr.dead {
@@ -208,7 +217,7 @@ func (p *Pool) execNoMemo(src string) *Result {
 		}
 	}
 	p.Execs.Add(1)
-	res, ok, to := p.call(pr, []Op{{Src: []byte(src)}}, p.OpTimeout)
+	res, ok, to := p.call(pr, []Op{{Src: []byte(src)}}, timeout)
 	if ok {
 		return &res[0]
 	}
